@@ -9,7 +9,8 @@ ID = "C17"
 LEVEL = "exploration"
 RULE = ("History monitor: for generators {white, red, alpha in {0.01,0.5,1,1.3,2}, pink} x "
         "init_filter {True, False} x seeds, a random partition of a total of 1..20000 samples "
-        "into get_series(n_i) requests with n_i drawn from {0, 0, 1, 1, 2, U{1..50}, U{1..5000}} "
+        "into get_series(n_i) requests with n_i drawn from {0, 0, 1, 1, 2, U{1..50}, U{1..5000}} or "
+        "from the boundary sizes {4095..4097, 16384/5, 32768/9, 65535..65537, 131073} "
         "(zeros first / last / consecutive, ones mixed with blocks) is concatenated and compared "
         "with ONE get_series(total) of a twin instance built with the same arguments and seed "
         "(bitwise expected; 1e-12*rms asserted); two equal instances give equal samples; a run of "
@@ -20,6 +21,7 @@ ASSUMPTIONS = [
     "mixing get_sample and get_series on one instance is not asserted (documented prefetch buffer)",
 ]
 DECIDING_COUNTERS = ["partition_histories", "twin_pairs", "get_sample_runs", "cascade_compared",
+                     "histories_with_request_over_65536",
                      "histories_with_zero_request", "histories_with_single_sample_request"]
 MIN_NONTRIVIAL = {"quick": 300, "thorough": 8000}
 JOBS = {"quick": 8, "thorough": 16}
@@ -63,7 +65,17 @@ def random_spec(rng):
     return spec
 
 
+BOUNDARY_SIZES = [4095, 4096, 4097, 16384, 16385, 32768, 32769, 65535, 65536, 65537, 131073]
+
+
 def random_partition(rng):
+    if rng.random() < 0.12:
+        # requests around and beyond the power-of-two sizes at which implementations switch to
+        # block-wise processing or refill buffers
+        blocks = [int(rng.choice(BOUNDARY_SIZES)) for _ in range(int(rng.integers(1, 4)))]
+        if rng.random() < 0.5:
+            blocks.insert(int(rng.integers(0, len(blocks) + 1)), int(rng.integers(0, 3)))
+        return blocks, "boundary-sizes"
     total_target = int(rng.choice([1, 2, 5, 100, 5000, int(rng.integers(1, 20001))]))
     blocks = []
     tot = 0
@@ -105,6 +117,8 @@ def partition_case(rec, seedt):
                                           f"(requests {blocks[:10]}...)")
         return
     rec.count("partition_histories")
+    if any(n > 65536 for n in blocks):
+        rec.count("histories_with_request_over_65536")
     if 0 in blocks:
         rec.count("histories_with_zero_request")
     if 1 in blocks and any(n >= 2 for n in blocks):
